@@ -502,6 +502,54 @@ def truth_table(expr: ast.AST, atom_of, n_atoms: int):
     return tuple(out)
 
 
+def atom_mapper(table: Dict[str, int]):
+    """``atom_of`` for truth_table: an atom is recognised by its text or by the text of its negation
+    (`x is None` is atom `x is not None` with polarity False)."""
+    from .sym import negate
+
+    def f(e):
+        t = norm(e)
+        if t in table:
+            return (table[t], True)
+        try:
+            nt = norm(negate(e))
+        except Exception:
+            return None
+        if nt in table:
+            return (table[nt], False)
+        return None
+    return f
+
+
+def reach_condition(P, stmt: ast.stmt, mention: Optional[str] = None) -> Optional[ast.expr]:
+    """The condition under which ``stmt`` is reached within one iteration of its nearest enclosing loop (or within its
+    function): the tests of the enclosing `if` statements together with the negations of the terminating guards
+    (`if C: continue / return / raise / break`, no else) that precede it in the enclosing blocks.  Either spelling —
+    nested `if` or early exit — gives an equivalent formula.  With ``mention``, only conjuncts naming that variable are kept.
+    Returns None when there is no such condition."""
+    conj: List[ast.expr] = []
+    child, cur = stmt, P.parent(stmt)
+    while cur is not None:
+        for field in ("body", "orelse", "finalbody"):
+            blk = getattr(cur, field, None)
+            if isinstance(blk, list) and any(child is s for s in blk):
+                for s in blk:
+                    if s is child:
+                        break
+                    if isinstance(s, ast.If) and not s.orelse and s.body and isinstance(s.body[-1], (ast.Continue, ast.Return, ast.Raise, ast.Break)):
+                        conj.append(ast.UnaryOp(op=ast.Not(), operand=s.test))
+                if isinstance(cur, ast.If):
+                    conj.append(cur.test if field == "body" else ast.UnaryOp(op=ast.Not(), operand=cur.test))
+        if isinstance(cur, (ast.For, ast.AsyncFor, ast.While, ast.FunctionDef, ast.AsyncFunctionDef, ast.Lambda)):
+            break
+        child, cur = cur, P.parent(cur)
+    if mention is not None:
+        conj = [c for c in conj if any(isinstance(n, ast.Name) and n.id == mention for n in ast.walk(c))]
+    if not conj:
+        return None
+    return conj[0] if len(conj) == 1 else ast.BoolOp(op=ast.And(), values=conj)
+
+
 def guards_of(P, node: ast.AST) -> List[Tuple[str, bool]]:
     """The branch conditions (normalised text, polarity) under which ``node`` is evaluated inside its function:
     enclosing `if` statements and conditional expressions (either spelling gives the same list)."""
